@@ -20,7 +20,7 @@ def tasks(tier):
     t = []
     for pol in ("DualNorm", "ObjectiveFilter", "DualEquilibration") if q else twin.loop.POLICIES:
         for cons in ([], ["eq0"]) if pol != "DualEquilibration" else (["eq0"],):
-            t.append(dict(module="twin", fn="h_repeat", shape=dict(K=(2 if pol in twin.loop.HEAVY and cons else K), policy=pol, vars=["boxed"], cons=cons), opts=o))
+            t.append(dict(module="twin", fn="h_repeat", shape=dict(K=(2 if cons else K), policy=pol, vars=["boxed"], cons=cons), opts=o))  # constrained repeats at K=2 in both tiers (K=3: > 100 min)
     # the REAL step controllers (PI-controller memory, step-size memory) across two solves
     for c in ("DistanceRatio", "ResiduumRatio", "Exact"):
         for v, fresh in ((["boxed"], False), (["free"], True)):
